@@ -14,6 +14,7 @@ PID = "C19"
 TARGET_PREFIXES = ("grids/grid", "geometry/map_geometry")
 
 PERT = 0.125
+MINLEN = 2.0 ** -30   # shortest 1-d cell (far above round-off, far below any absolute length scale in the code)
 
 META = {
     "explanation": "Grid.compute_geometry (_compute_geometry_1d / _2d, map_geometry.compute_tangent) executed on Cartesian, "
@@ -23,7 +24,7 @@ META = {
                     f"2-d: any 1, 2 or 3 nodes (quick: all single nodes, sampled pairs and triples; thorough: all) of a 2x2 Cartesian or "
                     f"2x2 structured triangle grid (thorough also 3x2 Cartesian, sampled) displaced "
                     f"by symbolic (dx, dy) in [-{PERT}, {PERT}]^2 (cells stay convex and positively oriented)",
-                    "1-d: 3 (thorough: 3-5) cells, all interior and end nodes symbolic, increasing with spacing >= 1/16, on the x-axis"],
+                    "1-d: 3 (thorough: 3-5) cells, all interior and end nodes symbolic, increasing with spacing >= 2^-30 (cells of any practical length, in particular much shorter than 1e-3), total length >= 1/4, on the x-axis"],
     "stubs": ["np.sqrt(x): |t| when x is syntactically t*t, otherwise fresh r >= 0 with r*r == x"],
     "outside": ["3-d grids (_compute_geometry_3d: sub-face areas are square roots that enter the face centroids "
                 "rationally; z3 did not decide the resulting queries)", "grids embedded in a tilted plane / line (C20)",
@@ -206,7 +207,8 @@ def harness1d(ctx, shard):
     n = shard["n"]
     xs = [ctx.real(f"x{i}", -4, 8) for i in range(n + 1)]
     for a, b in zip(xs, xs[1:]):
-        ctx.assume(lift(b) - lift(a) >= rv(1.0 / 16))
+        ctx.assume(lift(b) - lift(a) >= rv(MINLEN))
+    ctx.assume(lift(xs[-1]) - lift(xs[0]) >= rv(0.25))     # the line itself is not within the 1e-8 tolerance of a point
     inputs = {"shard": shard, "x": xs}
 
     def case(conc):
